@@ -171,8 +171,9 @@ def check(ctx):
             # floating-point buffer; its running index is the position read; the enclosing loop is the
             # other loop that advances the same index variable (found by dataflow, in whatever function
             # the unpacking lives)
+            from .. import ranges
             inner = outer = None
-            bu = iu = None
+            bu = None
             for l in s.loops:
                 for u_ in l.updates.values():
                     nx_ = u_['next']
@@ -180,48 +181,52 @@ def check(ctx):
                             isinstance(nx_[2], tuple) and nx_[2] and nx_[2][0] == 'obj':
                         g_ = fld(nx_[2], 'sum_')
                         if isinstance(g_, tuple) and g_ and g_[0] == 'sel' and g_[1] == ARF:
-                            cand_i = upd_by_pre(l, g_[2])
-                            if cand_i is not None:
-                                inner, bu, iu = l, u_, cand_i
+                            inner, bu = l, u_
             if inner is not None:
+                # the enclosing loop: the one whose body appends the container the inner loop fills
                 for l in s.loops:
-                    if l is not inner and upd_by_loc(l, iu['loc']) is not None:
-                        outer = l
+                    if l is inner:
+                        continue
+                    for u_ in l.updates.values():
+                        if any(isinstance(t_, tuple) and t_ and t_[0] in ('vcomp', 'havoc') and inner.idx in
+                               [x for x in t_ if isinstance(x, tuple)] for t_ in T.subterms(u_['next'])) or \
+                                T.occurs(u_['next'], bu.get('final', ('?',))):
+                            outer = l
             if inner is None or outer is None:
                 raise AnalysisBroken('unpack loops of allreduce_result not recognised')
             d2 = outer.idx
+            b2 = inner.idx
+            nbins = T.size(fld(sel(dists, d2), 'results_'))
             okr = (outer.lo, outer.hi) == (ZERO, T.size(dists)) and \
-                (inner.lo, inner.hi) == (ZERO, T.size(fld(sel(dists, d2), 'results_')))
-            ou = upd_by_loc(outer, iu['loc'])
-            oki = iu['kind'] == 'sum' and iu['body'] == TWO and algebra.equal(ou['init'], add(n0, TWO))[0] and \
-                ou['kind'] == 'sum'
-            if okr and oki:
+                algebra.equal(sub(inner.hi, inner.lo), nbins)[0]
+            if okr:
                 ctx.holds('R5.unpack_enumeration', where, 'unpack enumerates (distribution, bin) over the same '
-                          'ranges and in the same order as the pack loops, two slots per bin, starting behind '
-                          'the integrated sums')
+                          'ranges and in the same order as the pack loops')
             else:
                 ctx.violation('R5.unpack_enumeration', where, 'unpack does not enumerate the bins like the pack '
-                              'loops (ranges / two slots per bin / start offset)',
-                              {'outer': [T.pretty(outer.lo), T.pretty(outer.hi)], 'inner': [T.pretty(inner.lo), T.pretty(inner.hi)],
-                               'index_start': T.pretty(ou['init'])[:100], 'index_step': T.pretty(iu.get('body'))[:100]})
-            mb = None
-            nx = bu['next']
-            if isinstance(nx, tuple) and nx[0] == 'vpush' and nx[1] == bu['pre']:
-                mb = nx[2]
-            if mb is None:
-                raise AnalysisBroken('unpacked bin construction not recognised')
-            P = iu['pre']
+                              'loops (ranges)',
+                              {'outer': [T.pretty(outer.lo), T.pretty(outer.hi)], 'inner': [T.pretty(inner.lo), T.pretty(inner.hi)]})
+            mb = bu['next'][2]
+            # positions read, with every running index in closed form, against the positions packed:
+            # bin b of distribution d was packed at  n0 + 2 + sum_{e<d} 2*|bins_e| + 2*b  (+1 for the
+            # squares) in the floating-point buffer and at the same position minus n0 among the counters
+            pm = ranges.prefix_subst(s.loops)
+            e_ = sym('_e')
+            base = add(add(n0, TWO), ('sum', e_, ZERO, d2, mul(TWO, T.size(fld(sel(dists, e_), 'results_')))))
+            P = add(base, mul(TWO, sub(b2, inner.lo)))
             wantb = {'sum_': (ARF, P), 'sum_of_squares_': (ARF, add(P, ONE)),
                      'non_zero_calls_': (ARI, sub(P, n0)), 'finite_calls_': (ARI, sub(add(P, ONE), n0))}
             for fn_, (vec, pos) in wantb.items():
                 got = fld(mb, fn_)
-                okb = isinstance(got, tuple) and got[0] == 'sel' and got[1] == vec and algebra.equal(got[2], pos)[0]
+                gpos = T.subst(got[2], pm) if isinstance(got, tuple) and got[0] == 'sel' else None
+                okb = gpos is not None and got[1] == vec and algebra.equal(gpos, pos)[0]
                 if okb:
                     ctx.holds('R5.unpack', where + ':bin.' + fn_, 'bin %s read from slot %s of its pair, the '
                               'slot it was packed into' % (fn_, '0' if fn_ in ('sum_', 'non_zero_calls_') else '1'))
                 else:
                     ctx.violation('R5.unpack', where + ':bin.' + fn_, 'bin %s is not unpacked from the position it '
-                                  'was packed at' % fn_, {'got': T.pretty(got)[:300], 'want_index': T.pretty(pos)[:200]})
+                                  'was packed at' % fn_, {'got': T.pretty(got)[:300], 'position': T.pretty(gpos)[:300] if gpos else None,
+                                                         'want_index': T.pretty(pos)[:200]})
             if fld(mb, 'calls_') == TOT:
                 ctx.holds('R6.total_calls', where, 'every bin reports the total number of calls')
             else:
